@@ -425,7 +425,7 @@ func (r *Run) Finish(ev Evidence) {
 			continue
 		}
 		newViol++
-		dir := filepath.Join(VerifDir, "replays", r.Prop)
+		dir := filepath.Join(envOr("VERIF_REPLAY_DIR", filepath.Join(VerifDir, "replays")), r.Prop)
 		_ = os.MkdirAll(dir, 0o755)
 		path := filepath.Join(dir, sigFile(s)+".json")
 		v.Harness = r.Prop
@@ -476,8 +476,9 @@ func (r *Run) Finish(ev Evidence) {
 		"known_findings_hit": knownHit,
 	}
 	b, _ := json.MarshalIndent(doc, "", " ")
-	_ = os.MkdirAll(filepath.Join(VerifDir, "evidence"), 0o755)
-	if err := os.WriteFile(filepath.Join(VerifDir, "evidence", r.Prop+".json"), b, 0o644); err != nil {
+	evdir := envOr("VERIF_EVIDENCE_DIR", filepath.Join(VerifDir, "evidence"))
+	_ = os.MkdirAll(evdir, 0o755)
+	if err := os.WriteFile(filepath.Join(evdir, r.Prop+".json"), b, 0o644); err != nil {
 		fmt.Fprintln(os.Stderr, "cannot write evidence:", err)
 		os.Exit(2)
 	}
